@@ -190,3 +190,75 @@ func TestC09(t *testing.T) {
 		}
 	})
 }
+
+// ---------------------------------------------------------------- large files
+
+var c09FilePrograms = append(append([]string{}, c07Programs...),
+	"find all 'need' between 2100 and 2200 any 'QQ'",
+	"find all 'n' at least 2300 any fewest 'QQ'",
+	"replace all 'needle' with ''",
+	"replace all 'eed' with value value",
+	"find all (between 1 and 3 any) = x 'needle' x",
+)
+
+func TestC09Files(t *testing.T) {
+	seedNote(t)
+	StartWatchdog("C09", 120*time.Second)
+	st := NewStats("C09", "files", "programs with the engine's file access patterns (anchors reading one byte back, back-references, attempts that consume more than half a buffer window and then fail, replace commands that re-read the file from the start) run through RunFiles in modes NOTHING and NEW on files of size 0, 1, around 2048/4096/6144/8192 and up to 20000 with tokens planted at window boundaries; any panic is a violation; non-trivial = file larger than the 4096-byte buffer; distinct by (program, mode, content)")
+	defer st.Write()
+	rapid.Check(t, func(t *rapid.T) {
+		content, _ := genPlantedContent(t)
+		src := rapid.SampledFrom(c09FilePrograms).Draw(t, "prog")
+		if strings.Contains(src, "2100") || strings.Contains(src, "2300") {
+			// the long-attempt programs are expensive: keep one in four
+			if rapid.IntRange(0, 3).Draw(t, "heavy") != 0 {
+				src = rapid.SampledFrom(c07Programs).Draw(t, "lightprog")
+			}
+		}
+		mode := rapid.SampledFrom([]string{"NOTHING", "NEW"}).Draw(t, "mode")
+		c := FileCase{Src: src, Content: content, Mode: mode}
+		st.Eval()
+		SetInflight(func() string { return jsonStr(Failure{Property: "C09", Kind: "filecrash", Case: c}) })
+		sig, what := checkFileNoCrash(c)
+		ClearInflight()
+		if sig != "" {
+			Fail(t, Failure{Property: "C09", Kind: "filecrash", What: what, Case: c, Sig: sig})
+		}
+		if len(content) > 4096 {
+			st.NonTrivial(src+mode+content, func() any { return map[string]any{"src": src, "mode": mode, "size": len(content)} })
+		}
+	})
+}
+
+func checkFileNoCrash(c FileCase) (sig, what string) {
+	v, err, p := CompileSafe(c.Src)
+	if p != nil || err != nil {
+		return "compile-error", c.Src
+	}
+	dir, derr := os.MkdirTemp(scratchDir(), "c09f-")
+	if derr != nil {
+		panic(derr)
+	}
+	defer os.RemoveAll(dir)
+	path := filepath.Join(dir, "input.txt")
+	os.WriteFile(path, []byte(c.Content), 0o644)
+	res := RunFilesSafe(v, []string{path}, modeOf(c.Mode), vmLimitFile)
+	fileRuns++
+	if fileRuns%100 == 0 {
+		runtime.GC()
+	}
+	if res.Panic != nil {
+		return res.Panic.Sig(), fmt.Sprintf("%s on a %d-byte file in mode %s: RunFiles panicked: %s", c.Src, len(c.Content), c.Mode, res.Panic.Sig())
+	}
+	return "", ""
+}
+
+func init() {
+	registerReplay("filecrash", func(raw json.RawMessage) (string, string) {
+		var c FileCase
+		if err := json.Unmarshal(raw, &c); err != nil {
+			return "bad-replay-file", err.Error()
+		}
+		return checkFileNoCrash(c)
+	})
+}
